@@ -1535,6 +1535,9 @@ M("SEED-C18-i", ["C18"], [("@patch", "seeded/C18-i/patch.diff", "")], ["C18/stat
 M("SEED-C19-i", ["C19"], [("@patch", "seeded/C19-i/patch.diff", "")], ["C19/value/UserProperty"])
 M("SEED-C20-i", ["C20"], [("@patch", "seeded/C20-i/patch.diff", "")], ["C20/len16/BinaryData"])
 M("C06-connack-walk-break", ["C06", "C14", "C10", "C19"], [("src/mqtt_client/session/handshake.rs", "max_qos = Some(QoS::try_from(max).map_err(|_| PeerError::InvalidPacket)?);", "max_qos = Some(QoS::try_from(max).map_err(|_| PeerError::InvalidPacket)?);\n                        break;")], ["C06/init/connack-walk-complete", "C14/adv/connack-walk-complete", "C10/const/connack-walk-complete", "C19/qos/connack-walk-complete"])
+M("C14-limit-exact-size-refused-runtime", ["C14"], [("src/mqtt_client/session/state.rs", ".is_some_and(|max| len > max as usize)", ".is_some_and(|max| len >= max as usize)")], ["C14/pred/verdict/require_packet_size@RuntimeState"])
+M("C14-limit-exact-size-refused-outbound", ["C14"], [("src/mqtt_client/outbound.rs", "if maximum_packet_size.is_some_and(|max| len > max as usize) {", "if maximum_packet_size.is_some_and(|max| len >= max as usize) {")], ["C14/pred/verdict/require_packet_size"])
+M("C06-gate-quota-greater-than-one", ["C06"], [("src/mqtt_client/session/mod.rs", "self.runtime.send_quota != 0 && self.data.outbound.can_retain()", "self.runtime.send_quota > 1 && self.data.outbound.can_retain()")], ["C06/gate/reads-quota"])
 M("C09-push-off-by-one", ["C09", "C12"], [("src/ser/mod.rs", "if self.buf.len().saturating_sub(self.index) < 1 {", "if self.buf.len().saturating_sub(self.index) <= 1 {")], ["C09/fit/exact/push", "C12/fit/exact/push"])
 M("C09-commit-off-by-one", ["C09"], [("src/ser/mod.rs", "if self.buf.len().saturating_sub(self.index) < len {", "if self.buf.len().saturating_sub(self.index) <= len {")], ["C09/fit/exact/commit"])
 M("C09-push-bytes-bound-ignores-index", ["C09"], [("src/ser/mod.rs", "if self.buf.len().saturating_sub(self.index) < data.len() {", "if self.buf.len() < data.len() {")], ["C09/fit/exact/push_bytes"])
